@@ -89,10 +89,11 @@ func (d *jsonDecoder) cutFieldsBySize(data []byte) []byte {
 			return jsonCutPos{}, false
 		}
 
-		// [v.Index] is value start position including quote (")
+		// [v.Index] is value start position including quote (").
+		// Positions are counted in the raw (escaped) text, which is longer than [v.Str] when the value has escapes.
 		return jsonCutPos{
-			start: v.Index + limit + 1,
-			end:   v.Index + len(v.Str),
+			start: v.Index + 1 + jsonCutLen(v.Raw[1:len(v.Raw)-1], limit),
+			end:   v.Index + len(v.Raw) - 2,
 		}, true
 	}
 
@@ -130,6 +131,26 @@ func (d *jsonDecoder) cutFieldsBySize(data []byte) []byte {
 	}
 
 	return data
+}
+
+// jsonCutLen returns how many bytes of the escaped string s to keep so that
+// at most limit bytes remain and no escape sequence is split.
+func jsonCutLen(s string, limit int) int {
+	i := 0
+	for i < len(s) && i < limit {
+		n := 1
+		if s[i] == '\\' {
+			n = 2
+			if i+1 < len(s) && s[i+1] == 'u' {
+				n = 6
+			}
+		}
+		if i+n > limit || i+n > len(s) {
+			break
+		}
+		i += n
+	}
+	return i
 }
 
 func extractJsonParams(params Params) (jsonParams, error) {
